@@ -16,6 +16,7 @@ import (
 type docBytes struct {
 	docs        []*mapV
 	malformedAt int
+	yaml        bool // written as YAML documents: not decodable as JSON
 }
 
 func docStreamOf(rw value) *docBytes {
@@ -46,8 +47,10 @@ func (m *machine) ioEOF() iface {
 	panic(engineErr("io.EOF is not available"))
 }
 
-func jsonFieldName(st *types.Struct, i int) string {
-	tag := reflect.StructTag(st.Tag(i)).Get("json")
+func jsonFieldName(st *types.Struct, i int) string { return tagFieldName(st, i, "json") }
+
+func tagFieldName(st *types.Struct, i int, key string) string {
+	tag := reflect.StructTag(st.Tag(i)).Get(key)
 	if j := strings.Index(tag, ","); j >= 0 {
 		tag = tag[:j]
 	}
@@ -61,7 +64,9 @@ func jsonFieldName(st *types.Struct, i int) string {
 }
 
 // decodeDoc stores the document's members into *out (a pointer to a struct).
-func (m *machine) decodeDoc(doc *mapV, out value) {
+func (m *machine) decodeDoc(doc *mapV, out value) { m.decodeDocTag(doc, out, "json") }
+
+func (m *machine) decodeDocTag(doc *mapV, out value, tagKey string) {
 	oi, ok := out.(iface)
 	if !ok || oi.t == nil {
 		panic(engineErr("json document stream: decode target is not a typed pointer"))
@@ -85,7 +90,7 @@ func (m *machine) decodeDoc(doc *mapV, out value) {
 			panic(engineErr("json document stream: symbolic member name"))
 		}
 		for i := 0; i < st.NumFields(); i++ {
-			if !st.Field(i).Exported() || !strings.EqualFold(jsonFieldName(st, i), key) {
+			if !st.Field(i).Exported() || !strings.EqualFold(tagFieldName(st, i, tagKey), key) {
 				continue
 			}
 			ft := st.Field(i).Type()
@@ -111,6 +116,38 @@ func (m *machine) decodeDoc(doc *mapV, out value) {
 }
 
 func init() {
+	zzAPI["YAMLDocs"] = func(fr *frame, a []value) value {
+		db := &docBytes{malformedAt: -1, yaml: true}
+		if l, ok := a[0].([]value); ok {
+			for _, d := range l {
+				mv, _ := d.(*mapV)
+				if mv == nil {
+					mv = &mapV{}
+				}
+				db.docs = append(db.docs, mv)
+			}
+		}
+		return db
+	}
+	intrinsics["gopkg.in/yaml.v3.NewDecoder"] = func(fr *frame, a []value) (value, bool) {
+		return &jsonCodec{rw: a[0]}, true
+	}
+	intrinsics["(*gopkg.in/yaml.v3.Decoder).Decode"] = func(fr *frame, a []value) (value, bool) {
+		c, ok := a[0].(*jsonCodec)
+		if !ok {
+			panic(engineErr("yaml.Decoder not created by the model"))
+		}
+		db := docStreamOf(c.rw)
+		if db == nil || !db.yaml {
+			panic(engineErr("yaml decoding is modelled for zz.YAMLDocs carriers only"))
+		}
+		if c.pos >= len(db.docs) {
+			return fr.m.ioEOF(), true
+		}
+		fr.m.decodeDocTag(db.docs[c.pos], a[1], "yaml")
+		c.pos++
+		return iface{}, true
+	}
 	zzAPI["JSONDocs"] = func(fr *frame, a []value) value {
 		db := &docBytes{malformedAt: concI(a[0], "malformedAt")}
 		if l, ok := a[1].([]value); ok {
